@@ -138,7 +138,7 @@ def entry_contract(variant, volume_kind, via_interface):
         finally:
             ex.force_inline = False
     c.setup(setup)
-    c.requires('len(timepoints) >= 2 and timepoints[1] > timepoints[0]')      # uniform grids starting at 0 (statement)
+    c.requires('len(timepoints) >= 2 and timepoints[1] > timepoints[0] and timepoints[0] == 0')      # grids starting at the initial time 0 (statement)
     uses_volume = '(stochastic or delay)' if volume_kind != 'False' else 'False'
     # with a pre-built interface and no Model the frame cannot carry names (documented: a warning is issued); then the claim is
     # one data column per species plus the time (and volume) columns
